@@ -497,6 +497,9 @@ func runCase(c *caseSpec, info *runInfo) *failure {
 		return f
 	}
 
+	// the state of the last Commit: what a new instance has to report, whatever happened on the old one since
+	var committedModel map[string]string
+	committedRoot := cur.Root()
 	doCommit := func() *failure {
 		if err := cur.Commit(); err != nil {
 			return fail(step, "Commit returned an error", map[string]any{"err": err.Error()})
@@ -504,6 +507,11 @@ func runCase(c *caseSpec, info *runInfo) *failure {
 		commits++
 		dirty = false
 		info.commits = commits
+		committedRoot = cur.Root()
+		committedModel = make(map[string]string, len(model))
+		for k, v := range model {
+			committedModel[k] = v
+		}
 		if len(model) == 0 {
 			info.label("commit_empty")
 		}
@@ -546,8 +554,17 @@ func runCase(c *caseSpec, info *runInfo) *failure {
 			// never committed but written to: only the flag is asserted; the probe instance is dropped
 			info.label("probe_never_committed_dirty")
 		default:
-			// uncommitted changes on top of a commit: only the flag is asserted; the probe instance is dropped
-			info.label("probe_committed_dirty")
+			// uncommitted changes on top of a commit: "after any Commit, a new instance opened over the same store
+			// reports the same Root, Size and contents" - those of the Commit, not of the changes made since (the
+			// former known finding KF-C09-1). The probe instance is dropped, the old one goes on.
+			if r := fresh.Root(); r != committedRoot {
+				return fail(step, "Root of an instance opened after uncommitted changes differs from the committed root", map[string]any{"reopened": hex.EncodeToString(r[:]), "committed": hex.EncodeToString(committedRoot[:]), "commits_before": commits})
+			}
+			if msg, d := checkAgainstModel(fresh, c.Flavour, committedModel, keys); msg != "" {
+				return fail(step, msg+" (instance opened after uncommitted changes, compared with the state of the last Commit)", d)
+			}
+			info.label("reopen_committed_dirty")
+			info.nontrivial = true
 		}
 
 		return nil
